@@ -6,7 +6,7 @@ import time
 import traceback
 
 ROOT = os.path.dirname(os.path.dirname(os.path.abspath(__file__)))
-EVIDENCE = os.path.join(ROOT, "evidence")
+EVIDENCE = os.environ.get("VERIF_EVIDENCE_DIR") or os.path.join(ROOT, "evidence")   # seeded runs write elsewhere
 OUT = os.path.join(ROOT, "out")
 KNOWN = os.path.join(ROOT, "known_findings.json")
 
